@@ -196,7 +196,11 @@ PROPS['C03'] = {
              '(collect in any order, union, intersection, difference, contains, ==, verify_issued refuse/trim/inherit/missing, '
              'verify_covered, contains_block/intersects_block, asn_count, range->prefix decomposition, text and serde round trips) is '
              'checked on the implementation against the mathematical set (membership on all block ends +-1) and for canonical form. '
-             'Partial: text of IP addresses (std) and the RFC 3779 DER reader (bcder) are exercised, not modelled.',
+             'into_prefix is sound and complete and to_prefixes tiles the range exactly with the fuel the caller uses. The RFC 3779 AS extension '
+             'in DER is modelled (u32 INTEGER codec, id/range blocks, inherit): whatever decodes is inherit or the canonical chain of the union '
+             'of the listed blocks, and what is encoded for a canonical set decodes to exactly it; encoder and decoder models are tied to the '
+             'library byte for byte (as-enc / as-der). Partial: text of IP addresses (std) and the IP half of the RFC 3779 DER reader (prefix bit '
+             'strings) are exercised through C01/C05, not modelled.',
     'note': 'The post-pass merge condition and the saturation of asn_count are regenerated from the sources. One known finding: inverted '
             'IP ranges in *text* are still accepted (KNOWN_FINDINGS.txt).',
     'shards': {'quick': 8, 'thorough': 16},
